@@ -312,7 +312,8 @@ HARNESSES = HARNESSES + _density.harnesses_c10()
 
 BOUNDS = dict(quick="streams of <= 3 instances, ALL compositions into chunks, w=3, symbolic budget (BIQF: budget 0.5, "
                     "window history <= 2), symbolic and fresh pre-states",
-              thorough="streams of <= 5 instances (16 compositions), w in {1,3,100}, BIQF budgets {0.1,0.5,1.0}",
+              thorough="streams of <= 5 instances (16 compositions; <= 4 for Split / RandomVariableUncertainty, <= 3 for DensityBasedSplit from a "
+                       "symbolic pre-state), w in {1,3,100}, BIQF budgets {0.1,0.5,1.0}",
               outside="floating point rounding; strategies not listed in the evidence; chunk invariance is not claimed (and "
                       "not checked) for managers that consume normal draws (RandomVariableUncertainty, DensityBasedSplit)")
 ASSUMPTIONS = [
